@@ -186,11 +186,14 @@ impl<'a> SectionsBuilder<'a> {
                 self.builder.quote();
                 self.set_lines_range(quote.line_range);
                 let id = self.builder.id();
-                SectionsBuilder::new(
+                // keep the line ranges of the blocks inside the quote as well
+                let quoted_nodes = SectionsBuilder::new(
                     &mut self.builder.graph().builder(id),
                     &quote.blocks,
                     &self.key,
-                );
+                )
+                .nodes_map();
+                self.nodes_map.extend(quoted_nodes);
             }
             HorizontalRule(rule) => {
                 self.builder.horizontal_rule();
